@@ -197,7 +197,7 @@ def snippet(rng, words, depth=0):
         key = rng.choice([13, 66, 99])
         return b'FromHexString("' + binascii.hexlify(bytes(c ^ key for c in p)) + b'") -xor ' + str(key).encode()
     if k == 18:
-        return mini_pe(p)
+        return mini_pe(p if len(p) <= 0x200 else payload(rng, words))  # the section holds the whole payload or another one
     if k == 19:
         # an encoded blob that starts inside an unchanged indicator and runs past its end
         return rng.choice([b"C:\\Users\\bob\\", b"see evil.example.com/", b"\\\\server\\share\\"]) + base64.b64encode(p + b" padding to make it long enough")
@@ -224,7 +224,7 @@ def snippet(rng, words, depth=0):
     if k == 7:
         return b'cmd /c "echo ' + p.replace(b'"', b"") + b' & ping 1.2.3.4"'
     if k == 8:
-        return b"&".join(b"chr(%d)" % c for c in p[:12])
+        return b"&".join(b"chr(%d)" % c for c in (p if len(p) <= 12 else payload(rng, words)[:12]))
     if k == 9:
         return b'FromHexString("' + binascii.hexlify(p) + b'")'
     if k == 10:
@@ -234,7 +234,7 @@ def snippet(rng, words, depth=0):
     if k == 12:
         return b'CreateObject("WScript.Shell")'
     if k == 13:
-        return b'unescape("' + b"".join(b"%%%02x" % c for c in p[:20]) + b'")'
+        return b'unescape("' + b"".join(b"%%%02x" % c for c in (p if len(p) <= 20 else payload(rng, words)[:20])) + b'")'
     if k == 14:
         return p
     return base64.b64encode(base64.b64encode(p))
@@ -319,7 +319,7 @@ def gen_input(rng, words, hot, max_len=2048, exotic=False, bulk=False, sizes=Non
         while len(big) < target:
             big += out if rng.random() < 0.5 else rng.choice(filler)
             big += rng.choice([b"\n", b"\r\n", b" ", b"\n\n"])
-        out = big[: target + rng.randint(0, 300)]
+        out = big  # whole repetitions only (never half of the material)
     return bytes(out)
 
 
@@ -555,13 +555,14 @@ def gen_c09(seed, shipped, tier="quick"):
             elif r < 0.91 and cli_keys:
                 m, ci = rng.choice(cli_keys)
                 ops.append(["cli", m, rng.choice(["stdin", "file"]), ci])
-            elif r < 0.93:
+            elif r < 0.92:
                 ops.append(["gc"])
-            elif r < 0.95:
+            elif r < 0.93:
                 ops.append(["import", rng.choice(MODULES)])
             elif r < 0.985:
                 # crash point: a scan torn down at an arbitrary line; later results must not care
-                ops.append(["abort_scan", s, i, d, {"seed": rng.randrange(1 << 30), "scope": rng.choice(["engine", "nokw", "nokw", "all"])}])
+                ops.append(["abort_scan", s, i, d, {"seed": rng.randrange(1 << 30), "scope": rng.choice(["engine", "engine", "nokw", "nokw", "all"])}])
+                ops.append(["scan", s, i, d])  # the same scanner, the same bytes, right after the aborted attempt
             else:
                 # a scan of some other input (history), never compared across worlds unless keyed equal
                 ops.append(["scan", s, rng.randrange(ncorp), rng.choice(DEPTHS)])
